@@ -444,8 +444,8 @@ def get_next_assignment(
     """
     candidates = get_value_candidates(variable, current_value)
 
-    found = None
     for candidate in candidates:
+        found = None
         # Check if assigning candidate value to the variable would cause the global
         # cost to exceed the upper-bound.
         candidate_cost = 0
@@ -461,6 +461,7 @@ def get_next_assignment(
             if mode == "min" and (
                 candidate_cost >= upper_bound or ass_cost + elt_cost >= upper_bound
             ):
+                found = None
                 break  # Try next value in domain.
             else:
                 found = candidate, candidate_cost  # Check for next elt in path.
